@@ -58,7 +58,10 @@ PROPS = {
             "rule": ("random save histories (1..8 saves, names from a pool with ~25% deliberate repeats incl. '', unicode, quotes, newline; shapes 1x1..4x4 and 12..40 square-ish; "
                      "2-D float / 2-D int / (k,1) int / NaN-padded 3-D actions; cells NaN, ±inf, -0.0, 1e300, subnormals; metadata Path / callable / int / float / None / list / tuple) "
                      "through the real save_json + get_outputs_from_file + Output.from_file, plus solve / greedy / best_states in-process (n=3,4; 1-2 steps; 1-3 repetitions) with the "
-                     "computing function wrapped; non-trivial = history with a repeated name, >=2 names and a NaN cell, and every command run; distinct by history / run index"),
+                     "computing function wrapped; saves also go through a symlinked spelling of the directory and from a forked child; every 2nd history contains saves that "
+                     "legitimately raise (un-serialisable metadata keys / circular reference / missing func) and must leave data.json byte-identical; 3 (quick) / 25 (thorough) histories "
+                     "go through save() with all SAVERS (Agg) with NaN/±inf gap cells; the caller's Output is checked unmodified after every save; "
+                     "non-trivial = history with a repeated name, >=2 names and a NaN cell, and every command run; distinct by history / run index"),
             "assumptions": ["JSON text round trip of float64 / NaN tokens and np.array shape recovery are the codec hypothesis `decode (encode e) = some e` of the theorems; covered only by this sampling",
                             "'saved matrices are the computed ones' is checked on the commands by wrapping evaluate / get_greedy_rewards / get_best_exploitability, not proved"],
             "trusted": ["json, numpy array<->list conversion"], "quick_s": 60, "thorough_s": 600},
@@ -66,7 +69,8 @@ PROPS = {
             "rule": ("the file-system operations of the real save_json are observed (os.* and io.open wrapped in the harness process; same io buffering classes as the interpreter) for "
                      "histories with 0..5 earlier runs x result sizes 1x1..70x60 (1..8 written chunks) x new / existing name x stale temp file; the list is fed to the model "
                      "(atomicB + predicted content per k) and a crash is injected at EVERY operation k on a fresh copy; non-trivial = >=1 earlier run and >=2 written chunks; "
-                     "distinct by (earlier runs, size, index); thorough: strace cross-check of the observed list"),
+                     "every 4th save has its results directory on another file system than tempfile.gettempdir() (/dev/shm, …; noted when unavailable); stale temp files, "
+                     "also longer than the new content, are planted; distinct by (earlier runs, size, index); thorough: strace cross-check of the observed list"),
             "assumptions": ["POSIX rename atomicity; a completed write(2) is visible after the process dies; crash granularity = one os-level operation (DESIGN 3.7)",
                             "path-based reading of descriptor operations is exact because the discipline forbids touching the temporary after the rename"],
             "trusted": ["the recording layer (_RecRaw under the interpreter's own BufferedWriter/TextIOWrapper); strace agreement is checked in the thorough tier"],
